@@ -123,6 +123,18 @@ fn programs(env: &mc::refcond::Env, thorough: bool) -> Vec<Prog> {
             ]),
         )],
     );
+    // sibling coins: same parent and amount, different puzzles (lookup must not stop at the first
+    // parent/amount match); and same puzzle, different amounts
+    add(
+        "siblings".into(),
+        vec![
+            GSpend::quoted(P1, 7, Sx::list(&[drive::cond(51, &[Sx::atom(&PH2), Sx::int(1)])])),
+            GSpend::quoted(P1, 7, Sx::list(&[drive::cond(51, &[Sx::atom(&PH2), Sx::int(2)])])),
+            GSpend::quoted(P1, 7, Sx::list(&[drive::cond(51, &[Sx::atom(&H1), Sx::int(3), Sx::list(&[Sx::atom(&H2)])])])),
+            GSpend::identity(P1, 7, Sx::nil()),
+            GSpend::identity(P1, 8, Sx::nil()),
+        ],
+    );
     // ephemeral chain
     let a_id = drive::coin_id(&P1, &phi, 5);
     add("ephemeral".into(), vec![GSpend::identity(P1, 5, Sx::list(&[drive::cond(51, &[Sx::atom(&phi), Sx::int(3), Sx::list(&[Sx::atom(&H1)])])])), GSpend::identity(a_id, 3, Sx::list(&[drive::cond(76, &[])]))]);
